@@ -494,6 +494,30 @@ class Sym:
     def __float__(self):
         raise TypeError("symbolic real realised to float (would lose generality)")
 
+    def __array_ufunc__(self, ufunc, method, *inputs, **kwargs):
+        """numpy ufuncs applied to a bare proxy (e.g. pint's np.ceil(magnitude)): answer with a scalar proxy like numpy
+        answers with a numpy scalar for a float; anything involving real arrays goes through numpy's object loops."""
+        import numpy as np
+        if method == "__call__" and not kwargs and all(isinstance(x, (Sym, int, float, Fraction)) for x in inputs):
+            name = ufunc.__name__
+            a = inputs[0]
+            b = inputs[1] if len(inputs) > 1 else None
+            one = {"ceil": lambda: math.ceil(a), "floor": lambda: math.floor(a), "absolute": lambda: abs(a),
+                   "fabs": lambda: abs(a), "negative": lambda: -a, "positive": lambda: a, "rint": lambda: a.rint(),
+                   "trunc": lambda: math.trunc(a)}
+            two = {"add": lambda: a + b, "subtract": lambda: a - b, "multiply": lambda: a * b,
+                   "true_divide": lambda: a / b, "divide": lambda: a / b,
+                   "maximum": lambda: ite(a >= b, a, b), "minimum": lambda: ite(a <= b, a, b),
+                   "greater": lambda: a > b, "greater_equal": lambda: a >= b, "less": lambda: a < b,
+                   "less_equal": lambda: a <= b, "equal": lambda: a == b, "not_equal": lambda: a != b,
+                   "floor_divide": lambda: a // b, "remainder": lambda: a % b}
+            if len(inputs) == 1 and name in one and isinstance(a, Sym):
+                return one[name]()
+            if len(inputs) == 2 and name in two:
+                return two[name]()
+        conv = [np.asarray(x, dtype=object) if isinstance(x, Sym) else x for x in inputs]
+        return getattr(ufunc, method)(*conv, **kwargs)
+
     def __int__(self):
         return int(self.__trunc__())
 
